@@ -297,6 +297,83 @@ def rule_split_order(ctx, cfg, F):
     R.count("order_sites[%s]" % cfg, n)
 
 
+
+# --------------------------------------------------------------------------- IDX-BASE
+WHOLE_EXCHANGES = ("std::mem::replace", "std::mem::take", "std::cell::RefCell::replace", "std::cell::RefCell::take", "std::cell::RefCell::into_inner",
+                   "std::cell::RefCell::<T>::replace", "std::cell::RefCell::<T>::take")
+GROWERS = ("std::vec::Vec::push", "std::vec::Vec::extend", "std::vec::Vec::append", "std::vec::Vec::insert", "std::vec::Vec::extend_from_slice",
+           "std::vec::Vec::resize", "std::vec::Vec::resize_with", "std::iter::Extend::extend", "std::vec::Vec::splice")
+DE_ELEMS = ("Option<platform::unix::OsOpaqueIpcChannel>", "Option<platform::unix::OsIpcSharedMemory>", "Option<platform::inprocess::OsOpaqueIpcChannel>",
+            "Option<platform::inprocess::OsIpcSharedMemory>", "OsOpaqueIpcChannel", "Option<")
+
+
+def rule_idx_base(ctx, cfg, F):
+    R = ctx.rule("IDX-BASE", "attachment indices are absolute positions, so the lists and the indices must share base 0: the attachment lists handed to the platform send are the WHOLE "
+                 "contents of the serialisation tables (taken by mem::take/replace/swap or their RefCell forms), never a suffix, slice or filtered copy; and the decode tables are only ever "
+                 "exchanged whole with a received message's lists, never appended to")
+    n_send = n_de = 0
+    for f in sorted(F.fns.values(), key=lambda x: x.path):
+        base = strip_generics(f.path)
+        if not (base.startswith("ipc::") or base.startswith("<ipc::")):
+            continue
+        tr = None
+        for b, t in f.calls():
+            nm = strip_generics(callee_name(t))
+            if nm.endswith("::OsIpcSender::send") and nm.startswith("platform::") and len(t["args"]) >= 4:
+                tr = tr or Tracer(f)
+                swapped = set()
+                for b2, t2 in f.calls():
+                    if strip_generics(callee_name(t2)) in ("std::mem::swap", "std::cell::RefCell::swap"):
+                        for a in t2["args"]:
+                            l = _root_local(f, tr, a)
+                            if l is not None:
+                                swapped.add(l)
+                for ai, what in ((2, "channel"), (3, "shared-memory region")):
+                    n_send += 1
+                    # (the flow-insensitive slice also follows the error residual of `?`; a serializer-crate call cannot produce an attachment list)
+                    roots = {r for r in tr.roots_of_operand(t["args"][ai]) if not (r.kind == "call" and strip_generics(r.id).split("::")[0] in ("bincode", "serde"))}
+                    names = {strip_generics(r.id) for r in roots if r.kind == "call"}
+                    others = [r for r in roots if r.kind != "call"]
+                    whole = names and all(n in WHOLE_EXCHANGES or n == "std::vec::Vec::new" or n.endswith("::default") for n in names)
+                    via_swap = _root_local(f, tr, t["args"][ai]) in swapped
+                    # an exchange must actually touch a side table
+                    touches = True
+                    for r in roots:
+                        if r.kind == "call" and strip_generics(r.id) in ("std::mem::replace", "std::mem::take"):
+                            tt = f.term(r.block)
+                            if "std::cell::RefCell::borrow_mut" not in chain_calls(f, tt["args"][0]):
+                                touches = False
+                    if (whole and not others and touches) or (via_swap and not (names - set(WHOLE_EXCHANGES) - {"std::vec::Vec::new"})):
+                        R.ok("%s: the %s list sent is the whole table content (%s)" % (f.path, what, ", ".join(sorted(n.split("::")[-1] for n in names)) or "swap"), f.loc(b), cfg)
+                    else:
+                        R.violate("%s:%s-list-not-whole-table" % (base, what.split()[0]),
+                                  "the %s list handed to the platform send is not the whole serialisation table (origins: %s): indices written into the byte stream are absolute table positions, "
+                                  "so a suffix/slice/filtered list makes them point at the wrong attachment whenever the table was not empty (nested send)" % (what, sorted(map(repr, roots))),
+                                  f.path, f.loc(b), config=cfg)
+            # decode tables: never grown in place
+            if nm in GROWERS and t["args"] and "std::cell::RefCell::borrow_mut" in chain_calls(f, t["args"][0]):
+                g = " ".join(t.get("generics", []))
+                if "Option<" in g and any(e in g for e in SIDE_ELEMS):
+                    n_de += 1
+                    R.violate("%s:decode-table-grown" % base, "%s appends to a decode side table: entries of another message shift the base of this message's indices" % nm.split("::")[-1], f.path, f.loc(b), config=cfg)
+    # the installation of the received lists: whole exchanges in the function that runs the decoder
+    for f in sorted(F.fns.values(), key=lambda x: x.path):
+        base = strip_generics(f.path)
+        if not base.startswith("ipc::"):
+            continue
+        if not any(strip_generics(callee_name(t)).startswith("bincode::deserialize") or strip_generics(t.get("callee") or "").startswith("bincode::deserialize") for _, t in f.calls()):
+            continue
+        ex = [(b, t) for b, t in f.calls() if strip_generics(callee_name(t)) in ("std::mem::swap", "std::mem::replace", "std::mem::take", "std::cell::RefCell::swap", "std::cell::RefCell::replace", "std::cell::RefCell::take")
+              and any("std::cell::RefCell::borrow_mut" in chain_calls(f, a) or "RefCell" in f.local_ty(op_local(a) or 0) for a in t["args"] if op_place(a) is not None)]
+        n_de += len(ex)
+        if len(ex) >= 2:
+            R.ok("%s installs the received lists by whole exchange (%d exchange sites)" % (f.path, len(ex)), f.loc(ex[0][0]), cfg)
+        else:
+            R.violate("%s:decode-install-not-exchange" % base, "the function that runs the decoder does not install the received attachment lists by whole exchange with the decode tables (%d exchange sites found)" % len(ex), f.path, f.loc(0), config=cfg)
+    R.count("send_lists[%s]" % cfg, n_send)
+    R.count("decode_exchanges[%s]" % cfg, n_de)
+
+
 # =========================================================================== C01
 
 def rule_whole_buf(ctx, cfg, F):
